@@ -177,14 +177,14 @@ def run_shard(spec):
         from .c03 import LIBRARY_PROGRAMS
         for tag, src, argsets in LIBRARY_PROGRAMS:
             for a in argsets:
-                for word in (2, 3):
+                for word in (2, 3, 4):
                     for unchecked in (False, True):
                         res['evaluations'] += 1
                         run = diff.compile_and_run(src, a, word=word, stack=diff.GENEROUS_STACK, unchecked=unchecked, max_steps=MAX_STEPS)
                         case = diff.case_dict(src, a, word, diff.GENEROUS_STACK, unchecked, gen='library:' + tag)
                         fall = [r for r in run.outcome.reports if r[1] == 'fall'] if run.kind == 'ok' else []
-                        if run.kind != 'ok' or fall:
-                            runner.fail(res, 'M-FALL', f'library {tag}: {fall[0][2] if fall else run.kind + ": " + str(run.detail)}', case)
+                        if run.kind != 'ok' or fall or run.outcome.klass in ('HALT', 'TRAP'):
+                            runner.fail(res, 'M-FALL', f'library {tag}: {fall[0][2] if fall else (run.kind + ": " + str(run.detail)) if run.kind != "ok" else run.outcome.klass + " " + str(run.outcome.trap)}', case)
                         else:
                             runner.count(res, 'library_runs_clean')
         res['exhaustive'] = True
